@@ -8,7 +8,8 @@ C16 — executable model of boltons/tbutils.py:
     (linecache.checkcache + getline with the module's name and loader) and, spec side, the lookup of
     the `traceback` module (lazycache, checkcache, getline) over an abstract linecache / file / loader state
 
-The model follows the code as it is on the c16-work branch (after the `fix:` commits):
+The model follows the code as it is on the c16-work / r3-c16-work branches (after the `fix:` commits):
+  - TracebackInfo.get_formatted collapses runs of more than 3 identical entries (r3-c16-work 7fb4f9f),
   - the frame loop of from_string is guarded by `line_no < len(tb_lines)` (no IndexError),
   - ExceptionInfo.get_formatted prints the bare type when the message is empty,
   - the type name is the qualified name (this is outside the model: the harness passes the name).
@@ -379,8 +380,26 @@ def fromTraceback (tb : List Callpoint) (limit : Option Nat) : List Callpoint :=
 
 def headerNL : Str := header ++ ['\n']
 
+def sameSite (a b : Callpoint) : Bool := a.path = b.path && a.lineno = b.lineno && a.func = b.func
+
+/-- `_repeated_line_note(count)` / the traceback module's `[Previous line repeated N more times]` -/
+def repeatedMsg (n : Nat) : Str :=
+  "  [Previous line repeated ".toList ++ natStr n ++ (if n > 1 then " more times]\n".toList else " more time]\n".toList)
+
+def flushRepeat (count : Nat) : Str := if count > 3 then repeatedMsg (count - 3) else []
+
+/-- the loop of TracebackInfo.get_formatted (after the fix: runs of identical entries are collapsed):
+    `last` = site of the previous entry, `count` = length of the current run -/
+def bLoop : Option Callpoint → Nat → List Callpoint → Str
+  | _, count, [] => flushRepeat count
+  | last, count, f :: fs =>
+    if (match last with | none => true | some l => !sameSite l f) then
+      flushRepeat count ++ (tbFrameStr f ++ bLoop (some f) 1 fs)
+    else if count + 1 ≤ 3 then tbFrameStr f ++ bLoop last (count + 1) fs
+    else bLoop last (count + 1) fs
+
 /-- TracebackInfo.get_formatted -/
-def tbInfoFormat (frames : List Callpoint) : Str := headerNL ++ frames.flatMap tbFrameStr
+def tbInfoFormat (frames : List Callpoint) : Str := headerNL ++ bLoop none 0 frames
 
 /-- ExceptionInfo.get_formatted_exception_only (after the empty-message fix) -/
 def eiExcOnly (etype msg : Str) : Str := if msg = [] then etype else etype ++ (colonSp ++ msg)
@@ -400,13 +419,6 @@ def printException (frames : List Callpoint) (etype msg : Str) : Str :=
 /-- FrameSummary.line is the stripped line; printed when non-empty -/
 def stdFrameStr (c : Callpoint) : Str :=
   if strip c.line = [] then cpHead c else cpHead c ++ (ind4 ++ strip (strip c.line) ++ ['\n'])
-
-def sameSite (a b : Callpoint) : Bool := a.path = b.path && a.lineno = b.lineno && a.func = b.func
-
-def repeatedMsg (n : Nat) : Str :=
-  "  [Previous line repeated ".toList ++ natStr n ++ (if n > 1 then " more times]\n".toList else " more time]\n".toList)
-
-def flushRepeat (count : Nat) : Str := if count > 3 then repeatedMsg (count - 3) else []
 
 /-- StackSummary.format: `last` = previous entry, `count` = length of the current run -/
 def stdLoop : Option Callpoint → Nat → List Callpoint → Str
